@@ -10,7 +10,7 @@ LEAN_PROOF_TARGETS = ["PyroProps.C03"]
 AUDIT_FILES = ["PyroModel/Call.lean", "PyroModel/Gen/C03.lean", "PyroProofs/Call.lean", "PyroProps/C03.lean"]
 THEOREMS = ["Pyro.C03.C03_own_reply_partial", "Pyro.C03.C03_own_reply_full_false",
             "Pyro.C03.C03_exec_once_partial", "Pyro.C03.C03_exec_once_full_false",
-            "Pyro.C03.C03_exec_bound", "Pyro.C03.C03_oneway", "Pyro.C03.C03_recovers", "Pyro.C03.C03_wrap",
+            "Pyro.C03.C03_exec_bound", "Pyro.C03.C03_oneway", "Pyro.C03.C03_recovers", "Pyro.C03.C03_fault_free", "Pyro.C03.C03_wrap",
             "Pyro.C03.C03_never_stuck", "Pyro.C03.C03_reachable_inv",
             "Pyro.C03.C03_seqcheck_needed", "Pyro.C03.C03_release_needed",
             "Pyro.C03.C03_gen_seq", "Pyro.C03.C03_gen_invoke", "Pyro.C03.C03_gen_retry", "Pyro.C03.C03_gen_paths",
@@ -74,7 +74,7 @@ def expand(case):
 def options(case):
     """how the proxy of this history is set up (the model does not depend on either: the proxy's OWN retry setting
     governs, and wire-level response mode only changes what is handed back after all checks)"""
-    return {"gretries": case.get("gretries"), "raw": bool(case.get("raw"))}
+    return {"gretries": case.get("gretries"), "raw": bool(case.get("raw")), "blob": bool(case.get("blob"))}
 
 
 def model_line(retries, seq0, calls, script):
@@ -101,7 +101,7 @@ def systematic_cases():
     out = []
     tok = 0
     for retries in (0, 1, 2):
-        for kind in "nxsobBgtf":
+        for kind in "nxsobBgtfmM":
             for ev in [("ok",), ("lo",), ("la", 0), ("la", 400), ("cu", 0), ("cu", 700), ("rb",), ("ra",), ("st", 0), ("st", 1),
                        ("sh",), ("sq", 0), ("sq", 65534), ("du",), ("in",)]:
                 for where in ("hs", "first", "later", "retry-hs"):
@@ -135,7 +135,7 @@ def random_case(rng, big=False):
     else:
         seq0 = rng.randint(0, 65535)
     n = rng.choice([1, 2, 3, 4, 6, 8, 12, 12, 20, 40]) if not big else rng.choice([200, 1000])
-    kinds = "nnnnnnnxxsoooobbBggttff"
+    kinds = "nnnnnnnxxsoooobbBggttffmM"
     tok0 = rng.randint(1, 1000) * 100
     calls = [(rng.choice(kinds), tok0 + i) for i in range(n)]
     p_ok = rng.choice([0.4, 0.6, 0.75, 0.9])
@@ -148,6 +148,8 @@ def random_case(rng, big=False):
         case["gretries"] = rng.choice([0, 1, 2])          # config.MAX_RETRIES differs from the proxy's own setting
     if rng.random() < 0.25:
         case["raw"] = True                                 # wire-level response mode
+    if rng.random() < 0.2:
+        case["blob"] = True                                # arguments travel as a SerializedBlob
     return case
 
 
@@ -197,6 +199,24 @@ def setup_cases():
                     script = [ok, ok, ev] + [ok] * 20
                     tok += 10
                     out.append({"retries": r, "seq0": 0, "calls": calls, "script": script})
+    # stale metadata: calls of methods the object no longer has (oneway or not) between ordinary calls
+    for r in (0, 1):
+        for pat in ["Mn", "nMn", "MMnmn", "nmMon", "mn", "nMgMbn", "MfMn"]:
+            for ev in [ok, ("lo",), ("du",), ("ra",)]:
+                calls = [(k, tok + 1 + i) for i, k in enumerate(pat)]
+                for where in (2, len(pat) + 1):
+                    script = [ok] * where + [ev] + [ok] * 20
+                    out.append({"retries": r, "seq0": 0, "calls": calls, "script": script})
+                tok += 10
+    # arguments that travel as a SerializedBlob
+    for r in (0, 1):
+        for raw in (False, True):
+            for pat in ["non", "nxon", "osn", "onon", "noMn"]:
+                for ev in [ok, ("lo",), ("du",), ("st", 0), ("ra",)]:
+                    calls = [(k, tok + 1 + i) for i, k in enumerate(pat)]
+                    script = [ok, ok, ev] + [ok] * 20
+                    tok += 10
+                    out.append({"retries": r, "raw": raw, "blob": True, "seq0": 0, "calls": calls, "script": script})
     # one BatchProxy object across submits
     for r in (0, 1):
         for pat in ["Bb", "BBb", "bBb", "BnBb", "BobBn", "bBBbn", "BxBgb", "BbBbBb"]:
@@ -235,9 +255,9 @@ def canon(rec):
     tag = rec["tag"]
     if tag in ("returned", "raised"):
         inv = [m for m in rec["msgs"] if m["kind"] == "inv"]
-        if rec["kind"] in "oB" and tag == "returned" and rec["value"] is None and not inv:
+        if rec["kind"] in ONEWAY_KINDS and tag == "returned" and rec["value"] is None and not inv:
             out = "none"
-        elif inv and rec["kind"] not in "oB":
+        elif inv and rec["kind"] not in ONEWAY_KINDS:
             out = "ret:%s:%d" % (inv[-1]["ckind"], inv[-1]["ctok"])
         else:
             out = "ret:?"
@@ -248,6 +268,9 @@ def canon(rec):
     return "%s %d %s %d %d %d %d" % (out, rec["delta"], rec["state"], rec["seq"], rec["connects"], rec["consumed"], rec["unread"])
 
 
+ONEWAY_KINDS = "oBM"
+RETRIED_KINDS = "nxsomM"       # go through _RemoteMethod.__call__
+NO_METHOD_KINDS = "mM"         # the object no longer has the method: nothing may run on the server
 FAIL_TAGS = ("fail:closed", "fail:timeout", "fail:protocol", "fail:intr", "fail:comm")
 COMM_FAIL_TAGS = ("fail:closed", "fail:timeout", "fail:protocol", "fail:comm")     # fail:intr is the injected KeyboardInterrupt
 
@@ -269,13 +292,17 @@ def check_history(ctx, case, recs, net, retries):
     if net.server_errors:
         fail("daemon-side-error", "the daemon raised while serving: %r" % (net.server_errors[0],), 0)
     prev = None
+    faulty = False         # has the transport done anything but deliver so far?
     for rec in recs:
         kind, tok, tag, idx = rec["kind"], rec["tok"], rec["tag"], rec["idx"]
+        if any(e[0] != "ok" for e in rec["events"]) or tag in ("end", "stuck"):
+            faulty = True
         if tag in ("end", "stuck"):
             prev = None
             continue
-        oneway = kind in "oB"
-        budget = 1 + (retries if kind in "nxso" else 0)
+        oneway = kind in ONEWAY_KINDS
+        budget = 0 if kind in NO_METHOD_KINDS else 1 + (retries if kind in RETRIED_KINDS else 0)
+        want = 0 if kind in NO_METHOD_KINDS else 1
         ident = N.content_identity(rec["value"], rec["exc"]) if tag in ("returned", "raised") else None
         inv = [m for m in rec["msgs"] if m["kind"] == "inv"]
         if tag == "error:StopIteration" and kind == "f":
@@ -285,7 +312,9 @@ def check_history(ctx, case, recs, net, retries):
             fail("non-comm-error", "call %d (%s%d) raised %r, neither its own reply nor a communication error" % (idx, kind, tok, rec["exc"]), idx)
         elif tag in ("returned", "raised") and not oneway:
             # (1) own reply: by content, and by the origin of the message the proxy consumed
-            own_kind = {"n": "n", "x": "x", "s": "s", "b": "b", "g": "g", "f": "f", "t": None}[kind]
+            own_kind = {"n": "n", "x": "x", "s": "s", "b": "b", "g": "g", "f": "f", "t": None, "m": "m"}[kind]
+            if kind == "m" and ident == ("m", None):
+                ident = ("m", tok)      # the daemon's error reply for the missing method names no token; its origin is checked below
             origin = inv[-1] if inv else None
             foreign = None
             if kind == "t":
@@ -306,12 +335,12 @@ def check_history(ctx, case, recs, net, retries):
                 fail(sig, "call %d (%s%d) returned a reply that is not its own: %s (reply is %d INVOKE sends old)"
                      % (idx, kind, tok, foreign, age), idx)
             # (2) a call that returns has run its method exactly once
-            if rec["delta"] != 1:
+            if rec["delta"] != want:
                 if rec["delta"] >= 2 and retries >= 1 and kind in "nxs":
                     fail("retry-reexecutes", "MAX_RETRIES=%d: call %d (%s%d) returned after its method ran %d times "
                          "(an attempt whose request was processed failed and was re-sent)" % (retries, idx, kind, tok, rec["delta"]), idx)
                 else:
-                    fail("exec-count", "call %d (%s%d) returned but its method ran %d times" % (idx, kind, tok, rec["delta"]), idx)
+                    fail("exec-count", "call %d (%s%d) returned but its method ran %d times (expected %d)" % (idx, kind, tok, rec["delta"], want), idx)
             if kind in "bB" and rec["subcounts"] != [rec["delta"]]:
                 fail("exec-count", "batch %d: sub-calls ran %r times" % (idx, rec["subcounts"]), idx)
         elif tag in ("returned", "raised") and oneway:
@@ -320,7 +349,7 @@ def check_history(ctx, case, recs, net, retries):
                 fail("oneway-result", "oneway call %d returned %r / raised %r" % (idx, rec["value"], rec["exc"]), idx)
             if inv:
                 fail("oneway-consumed", "oneway call %d consumed a reply message" % idx, idx)
-            if rec["delta"] != 1 or rec["processed"] != 1:
+            if rec["delta"] != want or rec["processed"] != 1:
                 fail("oneway-exec", "oneway call %d returned; request delivered %d times, method ran %d times" % (idx, rec["processed"], rec["delta"]), idx)
         else:
             # failed
@@ -336,6 +365,11 @@ def check_history(ctx, case, recs, net, retries):
         if rec["foreign_execs"] != 0:
             fail("other-call-executed", "during call %d (%s%d) the server ran %d method execution(s) that belong to other calls"
                  % (idx, kind, tok, rec["foreign_execs"]), idx)
+        # (6) no fault, no failure (C03_fault_free): as long as the transport has delivered every message of the history,
+        #     every call (a stream fetch only when the proxy was connected) comes back with its own outcome
+        if not faulty and tag not in ("returned", "raised") and (kind != "f" or (prev is not None and prev["state"] == "L")):
+            fail("failed-without-fault", "call %d (%s%d) ended with %s (%r) although the transport has delivered every message so far"
+                 % (idx, kind, tok, tag, rec["exc"]), idx)
         # (5) recovery: after a call failed with a communication error, the next call (any kind but a stream fetch, whose
         #     iterator is bound to the lost connection by design) is served correctly when the transport is healthy, i.e.
         #     when the next two events of the script at the start of the call (handshake, request) are both `delivered`.
@@ -369,10 +403,11 @@ def run_cases(ctx, rig, cases, do_model, label):
         opt = options(case)
         ctx.count("global-retries:%s" % ("same" if opt["gretries"] in (None, retries) else "differs"))
         ctx.count("raw-wire-mode:%s" % opt["raw"])
+        ctx.count("blob-arguments:%s" % opt["blob"])
         ctx.count("histories:" + label)
         if any(f != "ok" for f in faults) and any(r["tag"] in ("returned", "raised") for r in recs):
             cls = "0" if seq0 == 0 else ("w" if seq0 >= 65500 else "r")
-            key = (retries, opt["gretries"], opt["raw"], cls, "".join(k for k, _ in calls[:len(recs)]),
+            key = (retries, opt["gretries"], opt["raw"] + 2 * opt["blob"], cls, "".join(k for k, _ in calls[:len(recs)]),
                    ",".join(ev_str(e) for r in recs for e in r["events"]))
             if len(key[4]) <= 64:
                 ctx.nontriv(key)
@@ -444,7 +479,8 @@ def replay(ctx, case):
     def go(rig):
         retries, seq0, calls, script = expand(hist)
         recs, net = rig.history(retries, seq0, calls, script, **options(hist))
-        print("proxy._pyroMaxRetries=%d config.MAX_RETRIES=%r raw-wire-mode=%r" % (retries, hist.get("gretries", retries), bool(hist.get("raw"))))
+        print("proxy._pyroMaxRetries=%d config.MAX_RETRIES=%r raw-wire-mode=%r blob-arguments=%r"
+              % (retries, hist.get("gretries", retries), bool(hist.get("raw")), bool(hist.get("blob"))))
         show = recs if len(recs) <= 60 else recs[:5] + recs[-5:]
         for r in show:
             print("call %d %s%d events=%s -> %s value=%r exc=%r ; method ran %d time(s); proxy %s seq=%d"
